@@ -1,5 +1,27 @@
 import Astria.Block.Model
-/- Theorems for area `block` (stub). -/
-namespace Astria.Block
+import Astria.Block.Rfc
+import Astria.Block.Chain
+import Astria.Block.Group
+import Astria.Block.Build
+import Astria.Block.Tamper
+import Astria.Block.Receive
+import Astria.Block.Wire
+import Astria.Block.Reencode
+import Astria.Block.FlatComplete
+/-
+  Theorems of area `block` (properties C07, C17).  The proofs live in the imported files:
 
-end Astria.Block
+  * `Rfc`          — RFC 6962 layer: tree hash injective up to collisions, audit paths complete,
+                     an accepted path shows membership.
+  * `Chain`        — both verifiers (RFC 6962, astria-merkle's index walk) are hash chains.
+  * `Group`        — grouping by rollup id and sorting: data exactness, strictly sorted id set.
+  * `Build`        — what `try_build` returns; every produced proof verifies.
+  * `Tamper`       — what acceptance by each receiver means; tamper evidence (collision extractors).
+  * `Receive`      — built blocks are accepted; filtering (core and gRPC); conductor reconstruction.
+  * `Wire`         — no receiver panics (C17 decode_total).
+  * `Reencode`     — accepted values re-encode (C17); transactions.
+  * `FlatComplete` — astria-merkle's index walk accepts RFC 6962 audit paths; built blocks pass the
+                     receivers under the crate's own verifier, also through raw protobuf.
+
+  The property theorems are in `Astria/Properties/C07.lean` and `Astria/Properties/C17.lean`.
+-/
